@@ -192,7 +192,7 @@ pub fn gen_bench(rng: &mut Rng, o: &BenchOpts) -> Case {
             sources.push(SourceSpec { edges, query });
         }
     }
-    Case { profile: String::new(), cfg, nodes, sinks, sources, script: vec![], aux: vec![] }
+    Case { profile: String::new(), cfg, nodes, sinks, sources, script: vec![], aux: vec![], comp: None }
 }
 
 /// Static upper bound on the number of handler invocations triggered by one
